@@ -190,7 +190,7 @@ func genPlainStmt(t *rapid.T, mode int, allowData bool) (string, string) {
 			} else {
 				imm = genImm(t, "imm")
 			}
-			ic := mkMemCase(mode, c, sh, d, has, reg, imm, 0)
+			ic := mkMemCase(mode, c, sh, d, has, reg, imm, rapid.IntRange(0, 7).Draw(t, "mstyle"))
 			text, cls = ic.St.Render(), "mem."+c.Name
 		case k == 3:
 			text, cls = fmt.Sprintf("INT %s", renderImm(rapid.SampledFrom([]int64{3, 0x10, 0x13, 0x15, 0x80, 0xff}).Draw(t, "intn"), 1)), "int"
